@@ -357,3 +357,6 @@ class GHE(BaseGHE):
         )
 
         self.bhe.b.H = returned_height
+        # the solver's last evaluation is in general not at the returned height (never when it
+        # clamps to the lower bound): leave the simulated temperatures consistent with it
+        self.simulate(method=method)
